@@ -290,4 +290,274 @@ theorem opus_frame_lockstep_silk_red_all (buf : List Nat) (maxData bandwidth nCh
   simp only
   rw [hcf2, r5.rc.rng_eq, hrngD]
 
+/-! ### Hybrid frames -/
+
+theorem rawC_of_noRaw (B : List Nat) (S : Nat) (c : Enc) (ri : RawInv c) (h0 : c.endOffs = 0) (h1 : c.nendBits = 0) :
+    RawC B S c := by
+  have hw := ri.win_lt
+  rw [h1] at hw
+  unfold RawC rawN rawQ
+  rw [h0, h1]
+  simp only [Nat.mul_zero, Nat.add_zero, Nat.pow_zero, Nat.mod_one, tailVal, Nat.mul_one, Nat.zero_add]
+  omega
+
+theorem bit_spec' {d : Dec} {v logp : Nat} (hv : v ≤ 1) (h : Reads d [.bitLogp v logp]) :
+    decBitLogp d logp = (v, after d [.bitLogp v logp]) := by
+  have h1 : (decBitLogp d logp).1 = (if v ≠ 0 then 1 else 0) := h.1
+  have h2 : (if v ≠ 0 then 1 else 0) = v := by split <;> omega
+  exact Prod.ext (h1.trans h2) rfl
+
+theorem uint_spec {d : Dec} {v ft : Nat} (h : Reads d [.uint v ft]) : decUint d ft = (v, after d [.uint v ft]) := by
+  have h1 : (decUint d ft).1 = v := h.1
+  exact Prod.ext h1 rfl
+
+/-- For the hybrid configurations, `decodeOpusFrame` is `decodeOpusFrameCfg` with `hybridCfg`. -/
+theorem decodeOpusFrame_hybrid (bandwidth nCh ms10 : Nat) (hms : ms10 = 100 ∨ ms10 = 200) (st : SilkSt) (frame : Bytes) :
+    decodeOpusFrame 1001 bandwidth nCh ms10 false st frame =
+      .ok (decodeOpusFrameCfg 1001 16000 (ms10 / 10) false (hybridCfg nCh ms10) st frame) := by
+  rcases hms with rfl | rfl <;> rfl
+
+/-- The redundancy parse of a hybrid frame (opus_decoder.c:471-499) against the encoder's signalling. -/
+theorem redundancyHeader_hybrid (len : Nat) (c1 : Dec) (gate : Bool) (red c2s rb : Nat) (hred : red ≤ 1) (hc2s : c2s ≤ 1)
+    (hrb : red ≠ 0 → 2 ≤ rb) (hgate : (tell c1 + 17 + 20 ≤ 8 * (len : Int)) ↔ gate = true)
+    (hread : Reads c1 (redSigOps true gate red c2s rb))
+    (hsane : ¬ (((len : Int) - (rb : Int)) * 8 < tell (after c1 (redSigOps true gate red c2s rb)))) :
+    redundancyHeader 1001 false (len : Int) c1 =
+      (if gate = true ∧ red ≠ 0 then
+        (1, c2s, rb, (len : Int) - rb,
+         { after c1 (redSigOps true gate red c2s rb) with
+           storage := (after c1 (redSigOps true gate red c2s rb)).storage - rb })
+       else (0, 0, 0, (len : Int), after c1 (redSigOps true gate red c2s rb))) := by
+  rw [redundancyHeader]
+  by_cases hg : gate = true
+  · have hgd : ¬ (false = true) ∧ tell c1 + 17 + (if (1001 : Nat) = 1001 then 20 else 0) ≤ 8 * (len : Int) := by
+      refine ⟨by decide, ?_⟩
+      rw [if_pos rfl]; exact hgate.mpr hg
+    rw [if_pos hgd, if_pos rfl]
+    by_cases hr0 : red = 0
+    · subst hr0
+      have hsig : redSigOps true gate 0 c2s rb = [Op.bitLogp 0 12] := by
+        unfold redSigOps; rw [if_pos hg]; simp
+      rw [hsig] at hread hsane ⊢
+      split
+      rename_i r c1' hb1
+      rw [bit_spec' (by decide) hread] at hb1
+      obtain ⟨rfl, rfl⟩ := Prod.mk.inj hb1
+      rw [if_neg (by decide), if_neg (fun hh => hh.2 rfl)]
+    · have hr1 : red = 1 := by omega
+      subst hr1
+      have hsig : redSigOps true gate 1 c2s rb = [Op.bitLogp 1 12, Op.bitLogp c2s 1, Op.uint (rb - 2) 256] := by
+        unfold redSigOps; rw [if_pos hg]; simp
+      rw [hsig] at hread hsane ⊢
+      rw [reads_cons_append] at hread
+      obtain ⟨ha, hread⟩ := hread
+      rw [reads_cons_append] at hread
+      obtain ⟨hb', hc'⟩ := hread
+      rw [after_cons_cons, after_cons_cons] at hsane ⊢
+      have h2 := hrb (by decide)
+      split
+      rename_i r c1' hb1
+      rw [bit_spec' (by decide) ha] at hb1
+      obtain ⟨rfl, rfl⟩ := Prod.mk.inj hb1
+      rw [if_pos (by decide), redundancyBlock]
+      split
+      rename_i cs c2' hb2
+      rw [bit_spec' hc2s hb'] at hb2
+      obtain ⟨rfl, rfl⟩ := Prod.mk.inj hb2
+      split
+      rename_i rb' c3 hb3
+      rw [redundancyBytes, if_pos rfl] at hb3
+      split at hb3
+      rename_i u c3' hu
+      rw [uint_spec hc'] at hu
+      obtain ⟨rfl, rfl⟩ := Prod.mk.inj hu
+      obtain ⟨rfl, rfl⟩ := Prod.mk.inj hb3
+      have hrbI : (((rb - 2 : Nat) : Int) + 2) = (rb : Int) := by omega
+      rw [hrbI] at *
+      rw [if_neg hsane, if_pos ⟨hg, by decide⟩, Int.toNat_natCast]
+  · have hgd : ¬ (¬ (false = true) ∧ tell c1 + 17 + (if (1001 : Nat) = 1001 then 20 else 0) ≤ 8 * (len : Int)) := by
+      intro hh
+      have := hh.2
+      rw [if_pos rfl] at this
+      exact hg (hgate.mp this)
+    have hsig : redSigOps true gate red c2s rb = [] := by unfold redSigOps; rw [if_neg hg]
+    rw [if_neg hgd, hsig, if_neg (fun hh => hg hh.1), after_nil]
+
+theorem redSigOps_noRaw (gate : Bool) (red c2s rb : Nat) : ∀ op ∈ redSigOps true gate red c2s rb, NoRawOp op := by
+  intro op hop
+  unfold redSigOps at hop
+  split at hop
+  · simp only [if_true, List.mem_append, List.mem_singleton] at hop
+    rcases hop with h | h
+    · rw [h]; trivial
+    · split at h
+      · simp only [List.mem_cons, List.mem_nil_iff, or_false] at h
+        rcases h with h | h <;> (rw [h]; trivial)
+      · cases h
+  · cases hop
+
+theorem redSigOps_legal (c : Enc) (gate : Bool) (red c2s rb : Nat) (hrb : red ≠ 0 → 2 ≤ rb ∧ rb ≤ 257) :
+    LegalRun c (redSigOps true gate red c2s rb) := by
+  unfold redSigOps
+  by_cases hg : gate = true
+  · rw [if_pos hg, if_pos rfl]
+    by_cases hr : red ≠ 0
+    · obtain ⟨h2, h257⟩ := hrb hr
+      rw [if_pos hr, if_pos rfl]
+      show LegalRun c [Op.bitLogp red 12, Op.bitLogp c2s 1, Op.uint (rb - 2) 256]
+      exact ⟨⟨by decide, by decide⟩, ⟨by decide, by decide⟩, ⟨by decide, by decide, by omega⟩, trivial⟩
+    · rw [if_neg hr]
+      show LegalRun c [Op.bitLogp red 12]
+      exact ⟨⟨by decide, by decide⟩, trivial⟩
+  · rw [if_neg hg]; trivial
+
+/-- (3) Hybrid Opus frame: SILK part, redundancy signalling and hand-over to the CELT part on one coder; the CELT
+    part and the redundancy frame enter through `CeltFrameRT`. -/
+theorem opus_frame_lockstep_hybrid_all (buf : List Nat) (maxData bandwidth nCh ms10 spf48 : Nat) (pk : PacketIn) (st : SilkSt)
+    (gate : Bool) (red c2s : Nat) (celtOps : List Op) (R : Bytes) (rr : Nat)
+    (hms : ms10 = 100 ∨ ms10 = 200)
+    (hs : maxData - 1 ≤ buf.length) (hb : BytesOk buf) (hok : PacketOk (hybridCfg nCh ms10) pk)
+    (hred : red ≤ 1) (hc2s : c2s ≤ 1) (hR : BytesOk R)
+    (hrb : red ≠ 0 → 2 ≤ R.length ∧ R.length ≤ 257) (hR0 : ¬ (gate = true ∧ red ≠ 0) → R = [])
+    (hsuf : LegalRun (encRun (encInit buf (maxData - 1)) (packetOps (hybridCfg nCh ms10) pk ++ redSigOps true gate red c2s R.length))
+      (Op.shrink (maxData - 1 - R.length) :: celtOps))
+    (hn : (encodeAll buf (maxData - 1) (hybridOps maxData (hybridCfg nCh ms10) pk gate red c2s R.length celtOps)).nbitsTotal < 4294967296)
+    (herr : (encodeAll buf (maxData - 1) (hybridOps maxData (hybridCfg nCh ms10) pk gate red c2s R.length celtOps)).error = 0)
+    (hgate : (tell (encRun (encInit buf (maxData - 1)) (packetOps (hybridCfg nCh ms10) pk)) + 17 + 20 ≤
+        8 * (((encodeAll buf (maxData - 1) (hybridOps maxData (hybridCfg nCh ms10) pk gate red c2s R.length celtOps)).storage + R.length : Nat) : Int)) ↔
+      gate = true)
+    (hsane : tell (encRun (encInit buf (maxData - 1)) (packetOps (hybridCfg nCh ms10) pk ++ redSigOps true gate red c2s R.length)) ≤
+      8 * (((encodeAll buf (maxData - 1) (hybridOps maxData (hybridCfg nCh ms10) pk gate red c2s R.length celtOps)).storage : Nat) : Int))
+    (hmainpos : 0 < (encodeAll buf (maxData - 1) (hybridOps maxData (hybridCfg nCh ms10) pk gate red c2s R.length celtOps)).storage) :
+    ∃ o, decodeOpusFrame 1001 bandwidth nCh ms10 false st
+        (hybridFrame buf maxData (hybridCfg nCh ms10) pk gate red c2s celtOps R rr).payload = .ok o ∧
+      o.redundancy = (if gate = true ∧ red ≠ 0 then 1 else 0) ∧
+      o.celtToSilk = (if gate = true ∧ red ≠ 0 then c2s else 0) ∧ o.redundancyBytes = R.length ∧
+      o.len = ((encodeAll buf (maxData - 1) (hybridOps maxData (hybridCfg nCh ms10) pk gate red c2s R.length celtOps)).storage : Int) ∧
+      o.evs = packetEvs (hybridCfg nCh ms10) pk (fun j =>
+        ((encRun (encInit buf (maxData - 1)) (prefixOps (hybridCfg nCh ms10) pk j)).rng,
+         tell (encRun (encInit buf (maxData - 1)) (prefixOps (hybridCfg nCh ms10) pk j)))) ∧
+      -- the hand-over to the CELT part: lock step with the encoder behind the signalling
+      o.dec.error = 0 ∧
+      o.dec.rng = (encRun (encInit buf (maxData - 1)) (packetOps (hybridCfg nCh ms10) pk ++ redSigOps true gate red c2s R.length)).rng ∧
+      tell o.dec = tell (encRun (encInit buf (maxData - 1)) (packetOps (hybridCfg nCh ms10) pk ++ redSigOps true gate red c2s R.length)) ∧
+      o.dec.storage = (encodeAll buf (maxData - 1) (hybridOps maxData (hybridCfg nCh ms10) pk gate red c2s R.length celtOps)).storage ∧
+      -- with the CELT round trips, the final ranges agree
+      (CeltFrameRT { start := 17, end_ := CeltSyms.endBandOf bandwidth, C := nCh, LM := CeltSyms.lmOf spf48 } o.len.toNat o.dec
+          (encodeAll buf (maxData - 1) (hybridOps maxData (hybridCfg nCh ms10) pk gate red c2s R.length celtOps)).rng →
+        (gate = true ∧ red ≠ 0 →
+          CeltFrameRT { start := 0, end_ := CeltSyms.endBandOf bandwidth, C := nCh, LM := 1 } R.length (decInit R R.length) rr) →
+        (¬ (gate = true ∧ red ≠ 0) → rr = 0) →
+        decRangeFinal 1001 bandwidth nCh spf48 (hybridFrame buf maxData (hybridCfg nCh ms10) pk gate red c2s celtOps R rr).payload o =
+          .ok (hybridFrame buf maxData (hybridCfg nCh ms10) pk gate red c2s celtOps R rr).rangeFinal) := by
+  generalize hcfg : hybridCfg nCh ms10 = cfg at *
+  generalize hsz : maxData - 1 = size at *
+  generalize hsigE : redSigOps true gate red c2s R.length = sig at *
+  have hsigN : ∀ op ∈ sig, NoRawOp op := by rw [← hsigE]; exact redSigOps_noRaw gate red c2s R.length
+  have hsigL : LegalRun (encRun (encInit buf size) (packetOps cfg pk)) sig := by
+    rw [← hsigE]; exact redSigOps_legal _ gate red c2s R.length hrb
+  have hopsE : hybridOps maxData cfg pk gate red c2s R.length celtOps =
+      packetOps cfg pk ++ sig ++ (Op.shrink (size - R.length) :: celtOps) := by
+    unfold hybridOps; rw [hsigE, hsz]
+  rw [hopsE] at hn herr hgate hsane hmainpos ⊢
+  have hframeE : hybridFrame buf maxData cfg pk gate red c2s celtOps R rr =
+      { payload := (encodeAll buf size (packetOps cfg pk ++ sig ++ (Op.shrink (size - R.length) :: celtOps))).buf.take
+          (encodeAll buf size (packetOps cfg pk ++ sig ++ (Op.shrink (size - R.length) :: celtOps))).storage ++ R,
+        rangeFinal := (encodeAll buf size (packetOps cfg pk ++ sig ++ (Op.shrink (size - R.length) :: celtOps))).rng ^^^ rr } := by
+    unfold hybridFrame; rw [hopsE, hsz]
+  rw [hframeE]
+  generalize hsufE : Op.shrink (size - R.length) :: celtOps = suf at *
+  unfold encodeAll at hn herr hgate hsane hmainpos ⊢
+  have hnF : (encRun (encInit buf size) (packetOps cfg pk ++ sig ++ suf)).nbitsTotal < 4294967296 := by
+    rw [encDone_nbitsTotal] at hn; exact hn
+  have herrF : (encRun (encInit buf size) (packetOps cfg pk ++ sig ++ suf)).error = 0 := by
+    apply Classical.byContradiction; intro hne
+    exact encDone_error_mono _ hne herr
+  -- the prefix (SILK + signalling) and the whole run
+  have hnP : (encRun (encInit buf size) (packetOps cfg pk ++ sig)).nbitsTotal < 4294967296 := by
+    rw [encRun_append] at hnF; exact Nat.lt_of_le_of_lt (encRun_nbits_mono suf _) hnF
+  have herrP : (encRun (encInit buf size) (packetOps cfg pk ++ sig)).error = 0 := by
+    apply Classical.byContradiction; intro hne
+    rw [encRun_append] at herrF
+    exact encRun_error_mono suf _ hne herrF
+  obtain ⟨riP, acP, p0, p1, _⟩ := sig_run_facts buf size cfg pk sig hs hb hok hsigN hsigL hnP herrP
+  have hrun := run_back suf _ riP hsuf (by rw [← encRun_append]; exact hnF) (by rw [← encRun_append]; exact herrF)
+  obtain ⟨_, riF, _, _, _⟩ := hrun
+  rw [← encRun_append] at riF
+  obtain ⟨_, d1, d2, d3, d4, d5⟩ := encDone_spec _ riF.inv riF.raw riF.bytes hnF herr
+  obtain ⟨n, hn1, _, hext⟩ := encDone_contains_ext _ riF.inv riF.raw riF.bytes hnF herr
+  have hrngD := encDone_rng (encRun (encInit buf size) (packetOps cfg pk ++ sig ++ suf))
+  have hwf := riF.inv.wf.storage_le
+  generalize he1 : encRun (encInit buf size) (packetOps cfg pk ++ sig ++ suf) = e1 at *
+  generalize heD : encDone e1 = eD at *
+  generalize hS : e1.storage = S at *
+  rw [d1] at hgate hsane hmainpos ⊢
+  have hSL : S ≤ eD.buf.length := by rw [d2]; exact hwf
+  have hlenB : (eD.buf.take S ++ R).length = S + R.length := by
+    rw [List.length_append, List.length_take]; omega
+  have hBok : BytesOk (eD.buf.take S ++ R) := by
+    intro b hb'
+    rcases List.mem_append.mp hb' with h | h
+    · exact d3 b (List.mem_of_mem_take h)
+    · exact hR b h
+  have hag : ∀ i, i < n → byteAt (eD.buf.take S ++ R) (S + R.length) i = byteAt eD.buf S i := by
+    intro i hi
+    unfold byteAt
+    rw [if_pos (by omega), if_pos (by omega)]
+    exact getD_take_append eD.buf R S i hSL (by omega)
+  have hc := hext (eD.buf.take S ++ R) (S + R.length) (fun i => byteAt_lt_bytesOk hBok _ i) hag
+  have hr := rawC_of_noRaw (eD.buf.take S ++ R) (S + R.length) _ riP.raw p0 p1
+  -- S > 0: a successful ec_enc_done wrote at least the digits
+  have hSpos : 0 < S := hmainpos
+  have hpos : 0 < S + R.length := by omega
+  obtain ⟨r1, r2, r3, r4, r5⟩ := frame_prefix_decode buf size cfg pk st sig suf hs hb hok hsigL hsuf
+    (by rw [he1]; exact hnF) (by rw [he1]; exact herrF)
+    (eD.buf.take S ++ R) (S + R.length) hBok hpos (by rw [hlenB]; exact hpos)
+    (by rw [he1]; exact hc) hr
+  -- the decoder
+  rw [← hcfg, decodeOpusFrame_hybrid bandwidth nCh ms10 hms, hcfg]
+  refine ⟨_, rfl, ?_⟩
+  rw [decodeOpusFrameCfg, hlenB]
+  split
+  rename_i evs st1 c1 hcalls
+  have e1' : evs = (silkCalls cfg cfg.nfpp true st (decInit (eD.buf.take S ++ R) (S + R.length))).1 := by rw [hcalls]
+  have e2' : c1 = (silkCalls cfg cfg.nfpp true st (decInit (eD.buf.take S ++ R) (S + R.length))).2.2 := by rw [hcalls]
+  rw [← e2'] at r2 r3 r4 r5
+  rw [← e1'] at r1
+  have htc : tell (after c1 sig) = tell (encRun (encInit buf size) (packetOps cfg pk ++ sig)) :=
+    (tell_eq_of_rn r5.rc.rng_eq r5.rc.nbits_eq).1
+  have hrh := redundancyHeader_hybrid (S + R.length) c1 gate red c2s R.length hred hc2s (fun h => (hrb h).1)
+    (by rw [r3]; exact hgate) (by rw [hsigE]; exact r4) (by rw [hsigE, htc]; omega)
+  rw [hsigE] at hrh
+  rw [hrh]
+  by_cases hgr : gate = true ∧ red ≠ 0
+  · simp only [if_pos hgr]
+    have hsto : (after c1 sig).storage = S + R.length := r5.rc.storage_eq
+    refine ⟨trivial, trivial, trivial, by simp, r1, r5.err, r5.rc.rng_eq, ?_, by simp [hsto], ?_⟩
+    · exact htc
+    · intro hmain hredF _
+      unfold decRangeFinal
+      have hlenI : ((((S + R.length : Nat)) : Int) - (R.length : Int)).toNat = S := by omega
+      simp only [show ¬ ((1001 : Nat) = 1000) by decide, if_false, ne_eq, Nat.succ_ne_zero, not_false_eq_true, if_true, hlenI] at hmain ⊢
+      obtain ⟨cf, hcf1, hcf2⟩ := hmain
+      rw [hcf1]
+      rw [drop_take_append eD.buf R S hSL, List.take_length]
+      obtain ⟨cg, hcg1, hcg2⟩ := hredF hgr
+      rw [hcg1]
+      simp only
+      rw [hcf2, hcg2]
+  · simp only [if_neg hgr]
+    have hRn := hR0 hgr
+    subst hRn
+    have hsto : (after c1 sig).storage = S + 0 := r5.rc.storage_eq
+    refine ⟨trivial, trivial, rfl, by simp, r1, r5.err, r5.rc.rng_eq, htc, by simpa using hsto, ?_⟩
+    intro hmain _ hrr0
+    unfold decRangeFinal
+    simp only [show ¬ ((1001 : Nat) = 1000) by decide, if_false, ne_eq, not_true_eq_false, List.length_nil, Nat.add_zero,
+      Int.toNat_natCast] at hmain ⊢
+    obtain ⟨cf, hcf1, hcf2⟩ := hmain
+    rw [hcf1]
+    simp only
+    rw [hcf2, hrr0 hgr]
+
 end Opus.OpusFrameProofs
